@@ -17,7 +17,7 @@ from .values import (V, VBool, VBound, VClosure, VInt, VMatch, VNone, VObj, VOpa
 BUILTIN_NAMES = {
     "len", "isinstance", "cast", "str", "int", "bool", "list", "tuple", "next", "any", "all",
     "enumerate", "reversed", "range", "print", "getattr", "hasattr", "id", "min", "max", "zip", "set",
-    "implies", "old", "iff", "repr", "heap_unchanged", "alloc_at_entry", "ctx_value", "type", "sorted", "dict", "bytes", "float", "object",
+    "implies", "old", "iff", "repr", "heap_unchanged", "heap_unchanged_except", "global_map", "alloc_at_entry", "ctx_value", "type", "sorted", "dict", "bytes", "float", "object",
 }
 EXC_NAMES = {
     "ValueError", "KeyError", "TypeError", "IndexError", "AttributeError", "AssertionError",
@@ -26,7 +26,7 @@ EXC_NAMES = {
 }
 
 TAGS = {"ctxvar", "token", "opaqueset", "generator", "builtin", "exc", "excinst", "func", "class", "extmod", "extattr", "ext", "repomod", "classattr",
-        "args", "emptylist", "enumerate", "reversed", "range", "rsplit1", "idset", "modconst", "typeof",
+        "args", "emptylist", "enumerate", "reversed", "range", "rsplit1", "idset", "modconst", "typeof", "intmap",
         "ctxmgr", "dictobj", "method"}
 SENTINELS = {"linebreak": 1, "empty_line": 2, "comma": 3}
 WS_CHARS = " \t\n\r\x0b\x0c"
@@ -399,6 +399,8 @@ class Evaluator:
             if isinstance(n, ast.ClassDef):
                 return VPy(("class", mod, n), name)
             return VPy(("func", mod, n), name)
+        if name in getattr(self.ctx.contract, "global_maps", {}) and name in mod.consts:
+            return VPy(("intmap", name, self.ctx.contract.global_maps[name]), name)
         if name in mod.consts:
             key = ("const", mod.relpath, name)
             cache = self.path.__dict__.setdefault("_const_cache", {})
@@ -1017,6 +1019,8 @@ class Evaluator:
     def eval_old(self, expr, env):
         """old(e): e evaluated in the entry heap (parameters in post-state clauses already denote entry values)."""
         sub = self.pure_eval()
+        sub.in_old = True
+        sub.old_globals = getattr(self, "old_globals", None)
         saved = self.path.heap
         try:
             if self.old_heap is not None:
@@ -1168,6 +1172,7 @@ class Evaluator:
     def pure_eval(self):
         sub = Evaluator(self.ctx, self.path, pure=True, fn_name=self.fn_name)
         sub.old_heap = self.old_heap
+        sub.old_globals = getattr(self, "old_globals", None)
         sub.entry_env = self.entry_env
         sub.closure_fx = self.closure_fx
         sub.call_ordinals = self.call_ordinals
@@ -1198,9 +1203,16 @@ class Evaluator:
                     return self.call_external(o[1], o[2], args, kwargs, node)
                 if tag == "classattr":
                     return self.heap.call_classattr(o, args, kwargs, node, env)
+        if isinstance(fv, VRef) and not args and (fv.cls == "weakref" or fv.cls is None and self.path.entails_quick(self.heap.tag_in(fv.t, "weakref"))):
+            # calling a weak reference: its referent, or None once the referent is gone (field `target`, 0 = dead)
+            return self.heap.getattr(VRef(fv.t, "weakref"), "target", node)
         self.oos(node, f"call of {fv}")
 
     def call_external(self, mod, name, args, kwargs, node):
+        if mod == "weakref" and name == "ref" and args and isinstance(self.lift(args[0]), VRef):
+            w = self.heap.alloc("weakref")
+            self.heap.h["target"] = z3.Store(self.heap.h["target"], w.t, self.lift(args[0]).t)
+            return w
         if mod == "re" and name == "compile":
             pat = self.lift(args[0])
             if isinstance(pat, VStr) and z3.is_string_value(pat.t):
@@ -1263,6 +1275,30 @@ class Evaluator:
                                              patterns=[cf[r][j]]))
                     else:
                         eqs.append(z3.ForAll([r], z3.Implies(z3.And(r >= 0, r < a0), cf[r] == old[f][r]), patterns=[cf[r]]))
+            return VBool(z3.And(*eqs) if eqs else z3.BoolVal(True))
+        if name == "global_map":
+            gname = args[0].t.as_string()
+            ecls = getattr(self.ctx.contract, "global_maps", {}).get(gname, "tuple")
+            arr = self.global_map_array(gname)
+            if getattr(self, "in_old", False):
+                og = getattr(self, "old_globals", None) or {}
+                arr = og.get(gname, self.path.__dict__["globals"]["map:" + gname + "@entry"])
+            return self.heap.global_map_read(arr, args[1].t, ecls)
+        if name == "heap_unchanged_except":
+            # heap_unchanged_except(obj, "field"): the only location of a pre-existing object that may differ is obj.field
+            obj, fld = args[0], args[1].t.as_string()
+            old = self.old_heap or {}
+            cur = self.path.heap
+            r = z3.Const("r!hue", z3.IntSort())
+            a0 = self.path.alloc0
+            eqs = []
+            for f in cur:
+                if f in old and f != "$alloc" and not z3.eq(cur[f], old[f]):
+                    cf = self.heap.patternable(cur[f]) if _has_ite(cur[f]) else cur[f]
+                    guard = z3.And(r >= 0, r < a0)
+                    if f == fld and isinstance(obj, VRef):
+                        guard = z3.And(guard, r != obj.t)
+                    eqs.append(z3.ForAll([r], z3.Implies(guard, cf[r] == old[f][r]), patterns=[cf[r]]))
             return VBool(z3.And(*eqs) if eqs else z3.BoolVal(True))
         if name == "implies":
             return VBool(z3.Implies(self.truth(args[0]), self.truth(args[1])))
@@ -1345,6 +1381,16 @@ class Evaluator:
         return VNone()
 
     # -- methods on values
+    def global_map_array(self, gname):
+        """Current content of a module-level registry (arbitrary at function entry: no registry invariant is assumed)."""
+        self.heap.init_path()
+        g = self.path.__dict__.setdefault("globals", {})
+        key = "map:" + gname
+        if key not in g:
+            g[key] = self.path.fresh("G." + gname + "@0", z3.ArraySort(z3.IntSort(), z3.IntSort()))
+            g[key + "@entry"] = g[key]
+        return g[key]
+
     def call_method(self, recv, name, args, kwargs, node, env):
         recv = self.lift(recv)
         args = [self.lift(a) for a in args]
@@ -1376,6 +1422,18 @@ class Evaluator:
                     g[key] = tok.obj[2]
                     return VNone()
             self.oos(node, f"ContextVar.{name}")
+        if isinstance(recv, VPy) and isinstance(recv.obj, tuple) and recv.obj and recv.obj[0] == "intmap":
+            _, gname, ecls = recv.obj
+            arr = self.global_map_array(gname)
+            if name == "get" and len(args) in (1, 2) and isinstance(args[0], VInt) and (len(args) == 1 or isinstance(args[1], VNone)):
+                return self.heap.global_map_read(arr, args[0].t, ecls)
+            if name == "pop" and len(args) == 2 and isinstance(args[0], VInt) and isinstance(args[1], VNone):
+                v = self.heap.global_map_read(arr, args[0].t, ecls)
+                if self.pure:
+                    self.oos(node, "pop in a specification clause")
+                self.path.__dict__["globals"]["map:" + gname] = z3.Store(arr, args[0].t, I(0))
+                return v
+            self.oos(node, f"registry method {name}")
         if isinstance(recv, VOpaque) and name in self.ctx.contract.opaque_methods:
             rt = self.ctx.contract.opaque_methods[name]
             sorts = {"Bool": z3.BoolSort(), "Str": z3.StringSort(), "Int": z3.IntSort(), "Opaque": z3.IntSort()}
@@ -1599,6 +1657,12 @@ class Evaluator:
                 idx = self.ev(tgt.slice, env)
                 self.heap.setitem(base, idx, value, node, env)
                 return
+            if isinstance(base, VPy) and isinstance(base.obj, tuple) and base.obj and base.obj[0] == "intmap":
+                k = self.lift(self.ev(tgt.slice, env))
+                if isinstance(k, VInt):
+                    arr = self.global_map_array(base.obj[1])
+                    self.path.__dict__["globals"]["map:" + base.obj[1]] = z3.Store(arr, k.t, self.heap.as_ref(self.lift(value), node).t)
+                    return
             if isinstance(base, VPy) and isinstance(base.obj, tuple) and base.obj and base.obj[0] == "dictobj":
                 k = self.lift(self.ev(tgt.slice, env))
                 if isinstance(k, VStr) and z3.is_string_value(k.t):
